@@ -285,10 +285,11 @@ def h_ranged(cname, n, op):
             r = call(lambda: get_attr(s, op)(bits, a, b))
         _lsb0(False)
         s0, e0, valid = O.norm_range(n, a, b)
+        if n == 0 and op in ('rol', 'ror'):
+            # an empty bitstring cannot be rotated (bitstring.Error); whether that or an invalid range is reported first is not specified
+            return K.check(not r.ok, 'rotating an empty bitstring must raise')
         if not valid:
             return K.check(r.raised(ValueError) and same(raw(s), x), 'invalid range must raise ValueError', exc=r.excname)
-        if n == 0 and op in ('rol', 'ror'):
-            return K.check(not r.ok, 'rotating an empty bitstring must raise')
         if not r.ok:
             return K.fail('lsb0 ' + op + ' raised', exc=r.excname)
         s0, e0 = K.conc(s0), K.conc(e0)
@@ -591,7 +592,7 @@ def conditions(tier):
                 add(f'C12.{which}-aligned[{c},n={n},m={m}]', h_find(c, n, m, which, True), f'all contents ({n}-bit data, {m}-bit pattern) x windows, bytealigned=True', n=n, m=m)
     # the reverse chunk loop of Bits._findall_lsb0 (8192-bit increments in production) with the increment shrunk by the hook
     for c in (['Bits'] if q else imm + mut):
-        for (n, m, ch) in ([(12, 1, 4), (12, 2, 5)] if q else [(12, 1, 4), (12, 2, 5), (13, 3, 4), (17, 2, 8), (16, 1, 8)]):
+        for (n, m, ch) in ([(9, 1, 4), (12, 2, 5)] if q else [(12, 1, 4), (12, 2, 5), (13, 3, 4), (17, 2, 8), (16, 1, 8)]):
             add(f'C12.findall-chunked[{c},n={n},m={m},chunk={ch}]', h_find(c, n, m, 'findall', False, True, chunk=ch), f'all contents ({n}-bit data, {m}-bit pattern) x end x count; chunk increment {ch} bits', n=n, m=m)
         for (n, m, ch) in ([(16, 1, 8)] if q else [(16, 1, 8), (17, 1, 8), (24, 8, 8), (20, 2, 5)]):
             for which in ('find', 'findall'):
